@@ -6,7 +6,8 @@
 // Case fields after the id:
 //   backend(st|mem|ss|sm) extractor(header|form|query|param|cookie|custom) single(0/1) idle(secs)
 //   trusted(hexlist)
-//   front(`eh=<d|c|n>;next=<0|1>;ck=<secure><httponly><sessiononly>,<samesite hex>,<domain hex>,<path hex>`:
+//   front(`eh=<d|c|n>;next=<0|1>;ck=<secure><httponly><sessiononly>,<samesite hex>,<domain hex>,<path hex>[;kg=<0|256|512>]`:
+//     kg = the KeyGenerator pads every token with `x` to that many bytes (0 = `t<n>` as it is);
 //     ErrorHandler default / custom (one status per error) / swallowing (returns nil); Next configured
 //     (skips requests carrying `X-Skip: 1`); the cookie fields of the configuration)
 //   ops(`;`-separated)
@@ -140,6 +141,7 @@ type cfgIn struct {
 	next                              bool   // Config.Next = "the request carries X-Skip: 1"
 	ckSecure, ckHTTPOnly, ckSessOnly  bool
 	ckSameSite, ckDomain, ckPath      string
+	kg                                int // KeyGenerator: token length (0 = short tokens `t<n>`)
 }
 
 func (c cfgIn) front() string {
@@ -148,7 +150,7 @@ func (c cfgIn) front() string {
 		eh = "d"
 	}
 	return "eh=" + eh + ";next=" + gen.B(c.next) + ";ck=" + gen.B(c.ckSecure) + gen.B(c.ckHTTPOnly) + gen.B(c.ckSessOnly) + "," +
-		gen.Hex(c.ckSameSite) + "," + gen.Hex(c.ckDomain) + "," + gen.Hex(c.ckPath)
+		gen.Hex(c.ckSameSite) + "," + gen.Hex(c.ckDomain) + "," + gen.Hex(c.ckPath) + ";kg=" + strconv.Itoa(c.kg)
 }
 
 // parseFront tolerates mangled input: ok=false for anything ill-formed.
@@ -159,6 +161,17 @@ func parseFront(s string, c *cfgIn) (ok bool) {
 		}
 	}()
 	parts := strings.Split(s, ";")
+	if len(parts) == 4 {
+		if !strings.HasPrefix(parts[3], "kg=") {
+			return false
+		}
+		n, err := strconv.Atoi(parts[3][3:])
+		if err != nil || (n != 0 && n != 256 && n != 512) {
+			return false
+		}
+		c.kg = n
+		parts = parts[:3]
+	}
 	if len(parts) != 3 || !strings.HasPrefix(parts[0], "eh=") || !strings.HasPrefix(parts[1], "next=") || !strings.HasPrefix(parts[2], "ck=") {
 		return false
 	}
@@ -323,6 +336,9 @@ func newWorld(c cfgIn) (w *world, panicked bool) {
 		KeyGenerator: func() string {
 			w.ntok++
 			t := "t" + strconv.Itoa(w.ntok)
+			if len(t) < c.kg {
+				t += strings.Repeat("x", c.kg-len(t))
+			}
 			w.gens = append(w.gens, t)
 			return t
 		},
